@@ -25,7 +25,13 @@ Import ListNotations.
 Open Scope Z_scope.
 
 Record key := mkKey { kptr : N; kval : N }.
-Record utxo := mkUtxo { utype : Z; ukeys : list key; uscript : list N }.
+(* [ulock]: UTXOWithLock.LockHash as its big-endian value, 0 = no value (unlocked) *)
+Record utxo := mkUtxo { utype : Z; ukeys : list key; uscript : list N; ulock : N }.
+
+(* validateInputs: utxo.LockHash.HasValue() && utxo.LockHash != hash && !fork => error.
+   This is the ONLY use validateInputs makes of the lock state. *)
+Definition lock_blocks (u : utxo) (hash : N) (fork : bool) : bool :=
+  negb (ulock u =? 0)%N && negb (ulock u =? hash)%N && negb fork.
 
 Definition len {A} (l : list A) : Z := Z.of_nat (length l).
 
@@ -135,12 +141,15 @@ Definition validate_utxo (index : nat) (u : utxo) (sigs : list sigmap)
 
 (* the loop of validateInputs over the UTXOs the store returned *)
 Fixpoint vi_loop (i : nat) (us : list utxo) (sigs : list sigmap) (ag : option (list Z))
-         (txType : Z) (ks : keysigs) (allKeys : list key) : res (keysigs * list key) :=
+         (txType : Z) (hash : N) (fork : bool) (ks : keysigs) (allKeys : list key)
+  : res (keysigs * list key) :=
   match us with
   | [] => Ok (ks, allKeys)
   | u :: rest =>
+      if lock_blocks u hash fork then Err      (* input locked for another transaction *)
+      else
       do ks' <- validate_utxo i u sigs ag txType ks (len allKeys);
-      vi_loop (Datatypes.S i) rest sigs ag txType ks' (allKeys ++ ukeys u)
+      vi_loop (Datatypes.S i) rest sigs ag txType hash fork ks' (allKeys ++ ukeys u)
   end.
 
 (* ---- crypto/aggregation.go: collectAggregateSigners + AggregateVerify --- *)
@@ -192,8 +201,8 @@ Definition ks_entries (ks : keysigs) : list (N * option S) :=
 (* ---- validateInputs after the store lookups ------------------------------ *)
 
 Definition validate_inputs (us : list utxo) (sigs : list sigmap) (ag : option (S * list Z))
-           (txType : Z) : res unit :=
-  do (ks, allKeys) <- vi_loop 0 us sigs (option_map snd ag) txType [] [];
+           (txType : Z) (hash : N) (fork : bool) : res unit :=
+  do (ks, allKeys) <- vi_loop 0 us sigs (option_map snd ag) txType hash fork [] [];
   if Nat.eqb (length ks) 0 &&
      ((txType =? Consts.ThrTransactionTypeNodeAccept) || (txType =? Consts.ThrTransactionTypeNodeRemove))
   then Ok tt
